@@ -166,8 +166,16 @@ func H_C13_lossgrad() {
 	n := numel(dims)
 	var yp, q, r T
 	var pe, qe, re []float64
-	if upstream == 0 {
+	if upstream == 0 || upstream == 2 {
 		yp, pe = mk("p", dims, true)
+		if upstream == 2 {
+			// a recycled leaf: it already went through a back-propagation and was reset to a fresh leaf
+			other, err := yp.Mul(yp)
+			if err != nil || !backprop("earlier use of the prediction", other) {
+				vrt.Assume(false)
+			}
+			yp.ResetGradContext(true)
+		}
 	} else {
 		q, qe = mk("q", dims, true)
 		r, re = mk("r", dims, true)
